@@ -87,6 +87,8 @@ theorem tensordotF_modes_all [AddCommMonoid R] [Mul R] [Neg R] [SignRing R]
           ∧ rm.oddpos = rb.oddpos ∧ rm.charge = rb.charge ∧ rm.sym = rb.sym ∧ rm.fermi = rb.fermi
           ∧ rm.indices.length = rb.indices.length
           ∧ (∀ s ∈ rb.sectors, s ∈ rm.sectors)
+          ∧ rm.sectors.Nodup
+          ∧ List.Forall₂ SizeLe rm.indices (without a.indices xa ++ without b.indices xb)
           ∧ (∀ K V, alookup rm.blocks K = some V →
               Arr.blockShape? (without a.indices xa ++ without b.indices xb) K = some V.shape)
           ∧ (∀ K V, alookup rm.blocks K = some V → ∀ J, inBox V.shape J = true →
@@ -103,7 +105,10 @@ theorem tensordotF_modes_all [AddCommMonoid R] [Mul R] [Neg R] [SignRing R]
     · intro e he; rw [he]; exact ⟨rfl, rfl⟩
     · intro r hr
       rw [hr]
-      refine ⟨_, _, rfl, rfl, rfl, rfl, rfl, rfl, rfl, fun _ hs => hs, ?_, fun _ _ _ _ _ => rfl⟩
+      obtain ⟨_, _, _, k4, k5, _⟩ := AssocP.finish_fields (coreT a b [] []) r
+      refine ⟨_, _, rfl, rfl, rfl, rfl, rfl, rfl, rfl, fun _ hs => hs, ?_, ?_, ?_, fun _ _ _ _ _ => rfl⟩
+      · rw [k5, F.sectors]; exact nodup_eraseDups _
+      · rw [k4, F.indices]; exact dropUnused_sizeLe _ _
       intro K V hl
       rw [finish_blocks] at hl
       exact coreFrame_block_shape F (Arr.shapesOk_of_validB h.va) (Arr.shapesOk_of_validB h.vb) K V hl
@@ -134,7 +139,7 @@ theorem tensordotF_to_blockwise_table [AddCommMonoid R] [Mul R] [Neg R] [SignRin
   cases hmo : OddposP.mergeOddpos a.parity a.oddpos b.oddpos with
   | error e => rw [(he e hmo).1] at hm; cases hm
   | ok r =>
-    obtain ⟨rm', rb, h1, h2, f1, f2, f3, f4, f5, hsec, hshape, hel⟩ := hk r hmo
+    obtain ⟨rm', rb, h1, h2, f1, f2, f3, f4, f5, hsec, _, _, hshape, hel⟩ := hk r hmo
     rw [h1] at hm
     cases hm
     exact ⟨rb, h2, f1, f2, f3, f4, f5, hsec, hshape, fun s o hb =>
